@@ -84,10 +84,18 @@ func e9RunSeq(r *Res, seq, variant string, depth int, stepped bool, palette int,
 	rng := kit.NewRng(kit.Mix(seed, kit.HashStr(seq+variant)))
 	fam := filterFamily()
 	fA, fB := fam[2], fam[5] // l=x ; m=1 or n1/a or */c
-	if palette == 1 {
+	switch palette {
+	case 1:
 		// the "new" filters alternate between accept-all and l=x: an accept-all
 		// filter is what a for-filter node must NOT take for "unchanged"
 		fA, fB = fam[2], fam[0]
+	case 2:
+		// a childless And (accepts everything) must not be taken for the initial
+		// accept-nothing filter of a for-filter node
+		fA, fB = kit.TAnd(), fam[2]
+	case 3:
+		// a childless Or (accepts nothing) against an accept-all node
+		fA, fB = fam[0], kit.TOr()
 	}
 	mid := fam[8] // l notin (x): intermediate clones
 	if depth == 3 {
@@ -137,6 +145,9 @@ func e9RunSeq(r *Res, seq, variant string, depth int, stepped bool, palette int,
 		cur = kit.TAll()
 	}
 	firstNew := fB
+	if palette == 2 {
+		firstNew = fA
+	}
 	// window of parent contents / filters since the last barrier (unstepped)
 	rootStates := [][]metav1Object{}
 	var winEvents []evrec // events published at the root since the last barrier
@@ -444,6 +455,58 @@ func e9StaleCase(seed uint64, n int, variant string) Case {
 	}}
 }
 
+// e9FailedFirstCase: a failed first list never makes anything ready.
+func e9FailedFirstCase(seed uint64, kind kit.ListFaultKind, n int) Case {
+	id := fmt.Sprintf("E9/failed-first-list/%s/%d/%d", kind, seed, n)
+	return Case{ID: id, Desc: map[string]interface{}{"failure": kind.String(), "n": n}, Bubble: true, Run: func(r *Res) {
+		rng := kit.NewRng(kit.Mix(seed, uint64(n)+uint64(kind)*31+919))
+		core := kit.NewCore(&kit.Plan{Seed: rng.U64(), PYield: 150, PSleep: 40, MaxSleep: 80 * time.Microsecond})
+		srv := kit.NewPodServer(core)
+		u := smallUniverse()
+		for i := 0; i < 4; i++ {
+			u.mutate(rng, srv)
+		}
+		lat := []time.Duration{0, time.Millisecond, time.Second}[rng.Intn(3)]
+		srv.ListPlan = func(i int) kit.ListFault { return kit.ListFault{Kind: kind, Latency: lat} }
+		g, err := newCtlRig(core, srv, time.Second, nil)
+		if err != nil {
+			r.Inc(err.Error())
+			return
+		}
+		fam := filterFamily()
+		t := newTree(g.ctl)
+		// the tree may be cut short when the controller has already stopped
+		t.grow(rng, 6, 3, fam, childKinds, true)
+		for _, nd := range t.nodes {
+			if nd.refilt != nil {
+				nd.refilt(fam[2])
+			}
+		}
+		if !waitCh(g.ctl.Done(), lat+time.Minute) {
+			r.V("C14", "not-fail-stop", "first list failed (%s) but the controller keeps running", kind)
+			r.V("C08", "ready-after-failed-first-list", "first list failed (%s): controller still running %v later, ready=%v", kind, lat+time.Minute, isClosed(g.ctl.Ready()))
+			g.shutdown(r, "C12")
+			return
+		}
+		g.barrier()
+		for _, nd := range t.nodes {
+			if nd.cc != nil && isClosed(nd.cc.Ready()) {
+				r.V("C08", "ready-after-failed-first-list", "the first list failed (%s) but %s became ready", kind, nd)
+			}
+			if nd.mir != nil && nd.mir.count() > 0 {
+				r.V("C08", "event-before-ready", "the first list failed (%s) but %s received %d events", kind, nd, nd.mir.count())
+			}
+			if nd.handler != nil && len(nd.handler.snapshot()) > 0 {
+				r.V("C16", "callback-without-ready", "the first list failed but monitor %s got callbacks", nd)
+			}
+		}
+		r.Add("failed-first-list-cases", 1)
+		g.cancel()
+		r.Key(id)
+		r.Sample = map[string]interface{}{"failure": kind.String(), "nodes": len(t.nodes), "error": fmt.Sprint(g.ctl.Error())}
+	}}
+}
+
 // e9CtlCase: Ready() of a controller closes only after the first list has been
 // fully applied; a failed first list never makes anything ready (that half is
 // E15's, reported under C08 as well).
@@ -610,6 +673,11 @@ func init() {
 		for i := 0; i < tierPick(tier, 4, 40); i++ {
 			cases = append(cases, e9StaleCase(seed, i, []string{"subff", "cloneff"}[i%2]))
 		}
+		for _, k := range []kit.ListFaultKind{kit.ListErr, kit.ListNonList, kit.ListNonObjects, kit.ListNoAccessor, kit.ListNilNil, kit.ListStatus, kit.ListErrAndList} {
+			for i := 0; i < tierPick(tier, 3, 40); i++ {
+				cases = append(cases, e9FailedFirstCase(seed, k, i))
+			}
+		}
 		maxLen := tierPick(tier, 5, 6)
 		seqs := e9Sequences(maxLen)
 		const chunk = 150
@@ -626,8 +694,11 @@ func init() {
 							}
 						}
 					}
-					for palette := 0; palette < 2; palette++ {
-						if palette == 1 && tier == "quick" && !stepped {
+					for palette := 0; palette < 4; palette++ {
+						if palette >= 1 && tier == "quick" && !stepped {
+							continue
+						}
+						if palette >= 2 && tier == "quick" && depth > 1 {
 							continue
 						}
 						for i := 0; i < len(ss); i += chunk {
